@@ -261,7 +261,7 @@ package fsutil
 //@   property C06
 //@   requires s != nil
 //@   modifies heap
-//@   effects SendMsg MuLock MuUnlock Progress RecvMsg ChanSend
+//@   effects *
 //@   ensures endmarker: result == nil ==> cnt(SendMsg) >= old(cnt(SendMsg)) + 1 && arg(SendMsg, 0) == types.PACKET_STAT && arg(SendMsg, 3) == nil
 
 // the request loop: a nil result means FIN was received and echoed as the last message
@@ -269,7 +269,7 @@ package fsutil
 //@   property C06
 //@   requires s != nil && s.files != nil
 //@   modifies heap
-//@   effects SendMsg MuLock MuUnlock RecvMsg ChanSend
+//@   effects SendMsg MuLock MuUnlock RecvMsg RecvDone StatRecv ChanSend
 //@   ensures fin: result == nil ==> cnt(SendMsg) >= old(cnt(SendMsg)) + 1 && arg(SendMsg, 0) == types.PACKET_FIN
 
 // ---------------------------------------------------------------------------
@@ -348,3 +348,33 @@ package fsutil
 //@   at call buffer.alloc: listing_skips_own_name: path != ".fsutil-metadata"
 //@   at call Stat.MarshalToSizedBufferVT: record_size: len(arg1) == n
 //@   at call littleEndian.PutUint32: length_prefix: len(arg1) == 4 && arg2 == uint32(n)
+
+// ---------------------------------------------------------------------------
+// chtimes_linux.go, diskwriter_unix.go, diskwriter.go
+// ---------------------------------------------------------------------------
+
+// both timestamps are the given nanosecond time, split exactly, and the call
+// does not follow a symlink
+//@ func chtimes
+//@   property C01 C13
+//@   safety +overflow
+//@   effects Utimes
+//@   ensures once: cnt(Utimes) == old(cnt(Utimes)) + 1 && arg(Utimes, 0) == path
+//@   ensures exact: arg(Utimes, 1) * 1000000000 + arg(Utimes, 2) == un && 0 <= arg(Utimes, 2) && arg(Utimes, 2) < 1000000000
+//@   ensures both: arg(Utimes, 3) == arg(Utimes, 1) && arg(Utimes, 4) == arg(Utimes, 2)
+//@   ensures nofollow: arg(Utimes, 5) == unix.AT_SYMLINK_NOFOLLOW
+
+// xattrs, then owner, then mode (never on a symlink), then times: chown after
+// chmod would drop setuid/setgid, anything after the times would disturb them
+//@ pred specNoSymlink(mode uint32) bool = mode & uint32(os.ModeSymlink) == 0
+//@ func rewriteMetadata
+//@   property C01 C02 C05
+//@   requires stat != nil
+//@   effects Setxattr Lchown Chmod Utimes
+//@   loop 0 invariant xattrs_first: cnt(Lchown) == old(cnt(Lchown)) && cnt(Chmod) == old(cnt(Chmod)) && cnt(Utimes) == old(cnt(Utimes)) && when(Setxattr) <= clk()
+//@   ensures owner: result == nil ==> cnt(Lchown) == old(cnt(Lchown)) + 1 && arg(Lchown, 0) == p && arg(Lchown, 1) == int(stat.Uid) && arg(Lchown, 2) == int(stat.Gid)
+//@   ensures mode: result == nil && specNoSymlink(stat.Mode) ==> cnt(Chmod) == old(cnt(Chmod)) + 1 && arg(Chmod, 0) == p && arg(Chmod, 1) == os.FileMode(stat.Mode)
+//@   ensures nomode: !specNoSymlink(stat.Mode) ==> cnt(Chmod) == old(cnt(Chmod))
+//@   ensures times: result == nil ==> cnt(Utimes) == old(cnt(Utimes)) + 1 && arg(Utimes, 0) == p && arg(Utimes, 1) * 1000000000 + arg(Utimes, 2) == stat.ModTime && arg(Utimes, 5) == unix.AT_SYMLINK_NOFOLLOW
+//@   ensures order: result == nil ==> (cnt(Setxattr) > old(cnt(Setxattr)) ==> when(Setxattr) < when(Lchown)) && when(Lchown) < when(Utimes) && (specNoSymlink(stat.Mode) ==> when(Lchown) < when(Chmod) && when(Chmod) < when(Utimes))
+//@   ensures atmost: cnt(Lchown) <= old(cnt(Lchown)) + 1 && cnt(Chmod) <= old(cnt(Chmod)) + 1 && cnt(Utimes) <= old(cnt(Utimes)) + 1
